@@ -146,7 +146,7 @@ class Script:
                 result += int_to_little_endian(cmd, 1)
             else:
                 length = len(cmd)
-                if length < 75:
+                if length <= 75:
                     # length between 1 - 75 inclusive,
                     # we encode the length as a single byte.
                     result += int_to_little_endian(length, 1)
